@@ -1220,6 +1220,8 @@ def iterate(ex, v, where=None):
         return list(v.d.values())
     if isinstance(v, str):
         return list(v)
+    if v.__class__.__name__ == 'CountVal':
+        return iter_count(ex, v, where)
     if isinstance(v, IterVal):
         rest = v.items[v.pos:]
         v.pos = len(v.items)
@@ -1254,6 +1256,17 @@ def iter_obj(ex, it):
         if n > ex.max_unroll:
             raise Unsupported('iterator exceeds unroll bound')
         yield x
+
+
+def iter_count(ex, c, where):
+    k = 0
+    while True:
+        if k >= ex.max_unroll:
+            raise Unsupported('loop over itertools.count() exceeds unroll bound %d: no bound on the iterations at %s'
+                              % (ex.max_unroll, ex.where(where) if where is not None else '?'))
+        yield mk_int(zi(c.start) + k * zi(c.step)) if not (isinstance(c.start, int) and isinstance(c.step, int)) \
+            else c.start + k * c.step
+        k += 1
 
 
 def iter_symrange(ex, r, where):
